@@ -44,6 +44,8 @@ func TestJob(t *testing.T) {
 			err = runResume(rec, sc)
 		case "kill":
 			err = runKill(rec, sc)
+		case "failwrite":
+			err = runFailWrite(rec, sc)
 		default:
 			err = fmt.Errorf("unknown scenario kind %q", sc.Kind)
 		}
